@@ -187,6 +187,10 @@ pub struct HEntity {
     pub headers: Vec<(String, Vec<u8>)>,
     pub scripts: Arc<Mutex<VecDeque<Vec<Ev>>>>,
     pub log: Arc<Mutex<Vec<Call>>>,
+    /// what further `len()` calls after the first answer, if the entity's length changes while it
+    /// is being served (a log being appended to or rotated); empty = `len` every time
+    pub later_lens: Arc<Mutex<VecDeque<u64>>>,
+    len_calls: Arc<AtomicU64>,
 }
 
 impl HEntity {
@@ -198,6 +202,8 @@ impl HEntity {
             headers: vec![],
             scripts: Default::default(),
             log: Default::default(),
+            later_lens: Default::default(),
+            len_calls: Default::default(),
         }
     }
     /// A fresh copy sharing nothing (own log, own script queue).
@@ -209,6 +215,8 @@ impl HEntity {
             headers: self.headers.clone(),
             scripts: Arc::new(Mutex::new(scripts.into_iter().collect())),
             log: Default::default(),
+            later_lens: Arc::new(Mutex::new(self.later_lens.lock().unwrap().clone())),
+            len_calls: Default::default(),
         }
     }
     pub fn header_map(&self) -> HeaderMap {
@@ -257,7 +265,11 @@ impl http_serve::Entity for HEntity {
     type Data = Bytes;
     fn len(&self) -> u64 {
         self.log.lock().unwrap().push(Call::Len);
-        self.len
+        if self.len_calls.fetch_add(1, Ordering::Relaxed) == 0 {
+            return self.len;
+        }
+        let mut l = self.later_lens.lock().unwrap();
+        if l.len() > 1 { l.pop_front().unwrap() } else { l.front().copied().unwrap_or(self.len) }
     }
     fn get_range(
         &self,
@@ -363,6 +375,37 @@ pub struct HReq {
     /// extra repeated header lines: `(name, value)` appended *after* the first ones, which a
     /// correct implementation ignores (`HeaderMap::get` returns the first value)
     pub repeats: Vec<(String, Vec<u8>)>,
+    /// how well-formed dates are written: 0 = IMF-fixdate, 1 = RFC 850, 2 = asctime (all three
+    /// are HTTP-dates a recipient must accept, RFC 7231 section 7.1.1.1)
+    pub date_fmt: u8,
+}
+
+/// `secs` after the epoch in one of the three HTTP-date formats.
+pub fn fmt_date(secs: u64, fmt: u8) -> Vec<u8> {
+    if fmt == 0 {
+        return httpdate::fmt_http_date(UNIX_EPOCH + Duration::from_secs(secs)).into_bytes();
+    }
+    // civil date from days since the epoch (proleptic Gregorian)
+    let days = (secs / 86_400) as i64;
+    let (h, mi, s) = ((secs % 86_400) / 3600, (secs % 3600) / 60, secs % 60);
+    let z = days + 719_468;
+    let era = z.div_euclid(146_097);
+    let doe = z.rem_euclid(146_097);
+    let yoe = (doe - doe / 1460 + doe / 36_524 - doe / 146_096) / 365;
+    let doy = doe - (365 * yoe + yoe / 4 - yoe / 100);
+    let mp = (5 * doy + 2) / 153;
+    let d = doy - (153 * mp + 2) / 5 + 1;
+    let m = if mp < 10 { mp + 3 } else { mp - 9 };
+    let y = yoe + era * 400 + if m <= 2 { 1 } else { 0 };
+    let wd = (days + 4).rem_euclid(7) as usize; // 1970-01-01 was a Thursday
+    const MON: [&str; 12] = ["Jan", "Feb", "Mar", "Apr", "May", "Jun", "Jul", "Aug", "Sep", "Oct", "Nov", "Dec"];
+    const WD3: [&str; 7] = ["Sun", "Mon", "Tue", "Wed", "Thu", "Fri", "Sat"];
+    const WDL: [&str; 7] = ["Sunday", "Monday", "Tuesday", "Wednesday", "Thursday", "Friday", "Saturday"];
+    if fmt == 1 {
+        format!("{}, {:02}-{}-{:02} {:02}:{:02}:{:02} GMT", WDL[wd], d, MON[(m - 1) as usize], y % 100, h, mi, s).into_bytes()
+    } else {
+        format!("{} {} {:2} {:02}:{:02}:{:02} {}", WD3[wd], MON[(m - 1) as usize], d, h, mi, s, y).into_bytes()
+    }
 }
 
 impl HReq {
@@ -376,6 +419,7 @@ impl HReq {
             ius: DateH::Absent,
             ims: DateH::Absent,
             repeats: vec![],
+            date_fmt: 0,
         }
     }
     pub fn m_field(&self) -> &'static str {
@@ -400,9 +444,7 @@ impl HReq {
         let date = |d: &DateH| match d {
             DateH::Absent => None,
             DateH::Bad(v) => Some(v.clone()),
-            DateH::Secs(s) => Some(
-                httpdate::fmt_http_date(UNIX_EPOCH + Duration::from_secs(*s)).into_bytes(),
-            ),
+            DateH::Secs(s) => Some(fmt_date(*s, self.date_fmt)),
         };
         b = add(b, "if-unmodified-since", &date(&self.ius));
         b = add(b, "if-modified-since", &date(&self.ims));
@@ -539,6 +581,23 @@ pub fn drive_to_end(body: SBody, max: usize) -> Vec<PollRec> {
 }
 
 fn drive_opt(body: SBody, n: usize, stop_at_terminal: bool) -> Vec<PollRec> {
+    drive_any(body, n, stop_at_terminal)
+}
+
+/// All bytes of a `Buf`, whatever its segmentation.
+pub fn buf_to_vec<D: bytes::Buf>(mut d: D) -> Vec<u8> {
+    let mut v = Vec::with_capacity(d.remaining());
+    while d.has_remaining() {
+        let c = d.chunk();
+        let n = c.len();
+        v.extend_from_slice(c);
+        d.advance(n);
+    }
+    v
+}
+
+/// `drive` for a body over any data type.
+pub fn drive_any<D: bytes::Buf + From<Vec<u8>> + From<&'static [u8]> + 'static>(body: http_serve::Body<D, BoxError>, n: usize, stop_at_terminal: bool) -> Vec<PollRec> {
     let mut body = Box::pin(body);
     let waker = noop_waker();
     let mut cx = Context::from_waker(&waker);
@@ -549,7 +608,7 @@ fn drive_opt(body: SBody, n: usize, stop_at_terminal: bool) -> Vec<PollRec> {
             let eos = body.is_end_stream();
             let out = match body.as_mut().poll_frame(&mut cx) {
                 Poll::Ready(Some(Ok(f))) => match f.into_data() {
-                    Ok(d) => Out::Data(d.to_vec()),
+                    Ok(d) => Out::Data(buf_to_vec(d)),
                     Err(_) => Out::ErrOther("non-data frame".into()),
                 },
                 Poll::Ready(Some(Err(e))) => classify_err(&e),
@@ -1129,4 +1188,119 @@ pub fn pred(ok: bool, why: impl FnOnce() -> String) -> String {
     } else {
         format!("FAIL:{}", why().replace(['\t', '\n'], " "))
     }
+}
+
+
+// ---------------------------------------------------------------------------------------
+// A data type that is not one contiguous slice: `Entity::Data` only has to be a `Buf`.
+
+/// A rope: `remaining()` is the total, `chunk()` only the first segment.
+#[derive(Clone, Debug, Default)]
+pub struct Rope(pub VecDeque<Bytes>);
+
+impl Rope {
+    /// `bytes` cut into up to three segments (never an empty first segment unless all is empty).
+    pub fn split(bytes: &[u8]) -> Rope {
+        let n = bytes.len();
+        let cuts: Vec<usize> = if n >= 3 { vec![1, n - 1] } else if n == 2 { vec![1] } else { vec![] };
+        let mut segs = VecDeque::new();
+        let mut prev = 0;
+        for c in cuts.into_iter().chain(std::iter::once(n)) {
+            if c > prev {
+                segs.push_back(Bytes::copy_from_slice(&bytes[prev..c]));
+                prev = c;
+            }
+        }
+        Rope(segs)
+    }
+}
+
+impl bytes::Buf for Rope {
+    fn remaining(&self) -> usize {
+        self.0.iter().map(|b| b.len()).sum()
+    }
+    fn chunk(&self) -> &[u8] {
+        self.0.front().map_or(&[], |b| &b[..])
+    }
+    fn advance(&mut self, mut cnt: usize) {
+        while cnt > 0 {
+            let front = self.0.front_mut().expect("advance past the end");
+            if cnt >= front.len() {
+                cnt -= front.len();
+                self.0.pop_front();
+            } else {
+                bytes::Buf::advance(front, cnt);
+                cnt = 0;
+            }
+        }
+        while self.0.front().map_or(false, |b| b.is_empty()) {
+            self.0.pop_front();
+        }
+    }
+}
+
+impl From<Vec<u8>> for Rope {
+    fn from(v: Vec<u8>) -> Rope {
+        Rope::split(&v)
+    }
+}
+
+impl From<&'static [u8]> for Rope {
+    fn from(v: &'static [u8]) -> Rope {
+        Rope::split(v)
+    }
+}
+
+/// The harness entity with `Data = Rope`: the same scripts, every chunk handed over in segments.
+#[derive(Clone)]
+pub struct RopeEntity(pub HEntity);
+
+impl http_serve::Entity for RopeEntity {
+    type Error = BoxError;
+    type Data = Rope;
+    fn len(&self) -> u64 {
+        http_serve::Entity::len(&self.0)
+    }
+    fn get_range(&self, range: Range<u64>) -> Pin<Box<dyn Stream<Item = Result<Rope, BoxError>> + Send + Sync>> {
+        let inner = self.0.get_range(range);
+        Box::pin(RopeStream(inner))
+    }
+    fn add_headers(&self, h: &mut HeaderMap) {
+        self.0.add_headers(h)
+    }
+    fn etag(&self) -> Option<HeaderValue> {
+        self.0.etag()
+    }
+    fn last_modified(&self) -> Option<SystemTime> {
+        self.0.last_modified()
+    }
+}
+
+struct RopeStream(Pin<Box<dyn Stream<Item = Result<Bytes, BoxError>> + Send + Sync>>);
+
+impl Stream for RopeStream {
+    type Item = Result<Rope, BoxError>;
+    fn poll_next(mut self: Pin<&mut Self>, cx: &mut Context<'_>) -> Poll<Option<Self::Item>> {
+        match self.0.as_mut().poll_next(cx) {
+            Poll::Ready(Some(Ok(b))) => Poll::Ready(Some(Ok(Rope::split(&b)))),
+            Poll::Ready(Some(Err(e))) => Poll::Ready(Some(Err(e))),
+            Poll::Ready(None) => Poll::Ready(None),
+            Poll::Pending => Poll::Pending,
+        }
+    }
+}
+
+/// `run_body` with the segmented data type.
+pub fn run_body_rope(q: &HReq, e0: &HEntity, scripts: &[Vec<Ev>], polls: usize) -> Option<(Vec<PollRec>, Vec<(u64, u64)>)> {
+    let e = e0.fresh(scripts.to_vec());
+    history_noise();
+    let req = q.build();
+    let ent = RopeEntity(e.clone());
+    let resp = std::panic::catch_unwind(std::panic::AssertUnwindSafe(|| http_serve::serve(ent, &req))).ok()?;
+    let recs = drive_any(resp.into_body(), polls, false);
+    let calls = e.log.lock().unwrap().iter().filter_map(|c| match c {
+        Call::GetRange(a, b) => Some((*a, *b)),
+        _ => None,
+    }).collect();
+    Some((recs, calls))
 }
